@@ -349,8 +349,12 @@ pub fn run_scase(c: &SCase) -> SObs {
         o.sched_time_after = to_off(w.sched.time());
         o.recs = shared.drain();
         o.sinks = drain_sinks(&mut w);
+        // an accepted request with a null period would make the next step re-insert the action
+        // at the same time forever: the acceptance is the violation, the case ends here
+        let zero_period_accepted = o.sched == Some(0)
+            && matches!(cmd, Cmd::Sched { period: Some(0), .. } | Cmd::SchedAction { period: Some(0), .. });
         obs.cmds.push(o);
-        if r.is_err() {
+        if r.is_err() || zero_period_accepted {
             break;
         }
     }
